@@ -366,8 +366,14 @@ Error BaseAssembler::embed_label_delta(const Label& label, const Label& base, si
 
   // If both labels are bound within the same section it means the delta can be calculated now.
   if (label_entry.is_bound() && base_entry.is_bound() && label_entry.section_id() == base_entry.section_id()) {
-    uint64_t delta = label_entry.offset() - base_entry.offset();
-    writer.emit_value_le(delta, data_size);
+    int64_t delta = int64_t(label_entry.offset() - base_entry.offset());
+
+    // The same range the relocated form (a signed value of `data_size` bytes) accepts.
+    if (ASMJIT_UNLIKELY(!EmitterUtils::is_encodable_offset_64(delta, uint32_t(data_size) * 8u))) {
+      return report_error(make_error(Error::kInvalidDisplacement));
+    }
+
+    writer.emit_value_le(uint64_t(delta), data_size);
   }
   else {
     RelocEntry* re;
